@@ -29,6 +29,15 @@ Definition ref_run (c : {CASE_TY}) : outcome :=
 Definition py_run' (c : {CASE_TY}) : obs := py_run {FUEL} (fst c) (snd c).
 Definition tc_ok (c : {CASE_TY}) : bool :=
   match typecheck (fst c) (map fst (snd c)) with Some _ => true | None => false end.
+(* what the model is compared on: the full objects (stack programs) or their erasure (contracts through run_code) *)
+Inductive pyobs := Full (o : obs) | Erased (o : outcome).
+Definition outcome_or_obs_eqb (a b : pyobs) : bool :=
+  match a, b with
+  | Full x, Full y => obs_eqb x y
+  | Full x, Erased y | Erased y, Full x => outcome_eqb (erase_obs x) y
+  | Erased x, Erased y => outcome_eqb x y
+  end.
+Definition py_obs (c : {CASE_TY}) : pyobs := Full (py_run' c).
 Definition static_types (c : {CASE_TY}) : option (list ty) :=
   match typecheck (fst c) (map fst (snd c)) with Some (Typed s) => Some s | _ => None end.
 '''
@@ -144,6 +153,24 @@ RULE = ('type-directed generator (harness/c01_gen.py): 0-4 typed input values (b
         'non-trivial = at least 3 instructions of at least 2 kinds; distinct = distinct program text + inputs')
 
 
+def triple_check(ctx: lib.Ctx, name: str, coq_cases, obs_lits, ref_lits, label=None):
+    """One coqc pass evaluating typecheck, py_eval and ref_eval on every case; the three comparisons are told apart
+    (by three more passes over the disagreeing cases only) when something disagrees. -> (bad_tc, bad_A, bad_B)"""
+    fn = "fun c => (tc_ok c, py_obs c, ref_run c)"
+    eqb = "fun a b => match a, b with (t1, o1, r1), (t2, o2, r2) => Bool.eqb t1 t2 && outcome_or_obs_eqb o1 o2 && outcome_eqb r1 r2 end"
+    cases = [(c, f'(true, {o}, {r})') for c, o, r in zip(coq_cases, obs_lits, ref_lits)]
+    bad = ctx.coq_mismatches(name, IMPORTS, fn, eqb, CASE_TY, 'bool * pyobs * outcome', cases, prelude=PRELUDE)
+    if not bad:
+        return [], [], []
+    sub = [coq_cases[i] for i in bad]
+    bt = ctx.coq_mismatches(name + '_tc', IMPORTS, 'tc_ok', 'Bool.eqb', CASE_TY, 'bool', [(c, 'true') for c in sub], prelude=PRELUDE)
+    ba = ctx.coq_mismatches(name + '_py', IMPORTS, 'py_obs', 'outcome_or_obs_eqb', CASE_TY, 'pyobs',
+                            [(coq_cases[i], obs_lits[i]) for i in bad], prelude=PRELUDE)
+    bb = ctx.coq_mismatches(name + '_ref', IMPORTS, 'ref_run', 'outcome_eqb', CASE_TY, 'outcome',
+                            [(coq_cases[i], ref_lits[i]) for i in bad], prelude=PRELUDE)
+    return [bad[j] for j in bt], [bad[j] for j in ba], [bad[j] for j in bb]
+
+
 def collect(ctx: lib.Ctx, prop: str):
     cases = build_cases(ctx, prop)
     metas = []
@@ -153,12 +180,13 @@ def collect(ctx: lib.Ctx, prop: str):
         metas.append(obs)
     ctx.extra['impl_seconds'] = round(__import__('time').time() - ctx.t0, 1)
     coq_cases = [G.case_coq(c) for c in cases]
-    # generator vs Typing.v
-    bad_t = ctx.coq_mismatches('tc', IMPORTS, 'tc_ok', 'Bool.eqb', CASE_TY, 'bool', [(c, 'true') for c in coq_cases], prelude=PRELUDE)
-    if bad_t:
-        i = bad_t[0]
-        raise lib.InternalError(f'generated program rejected by Typing.typecheck (generator/type checker disagree): {G.case_text(cases[i])}')
     return cases, metas, coq_cases
+
+
+def tc_fail(cases, bad_t):
+    if bad_t:
+        raise lib.InternalError('generated program rejected by Typing.typecheck (generator/type checker disagree): '
+                                + G.case_text(cases[bad_t[0]]))
 
 
 def collect_contracts(ctx: lib.Ctx):
@@ -179,9 +207,6 @@ def collect_contracts(ctx: lib.Ctx):
         cases.append(c)
         metas.append(o)
     coq_cases = [G.case_coq(c) for c in cases]
-    bad_t = ctx.coq_mismatches('ctc', IMPORTS, 'tc_ok', 'Bool.eqb', CASE_TY, 'bool', [(c, 'true') for c in coq_cases], prelude=PRELUDE)
-    if bad_t:
-        raise lib.InternalError(f'generated contract rejected by Typing.typecheck: {G.case_text(cases[bad_t[0]])}')
     return cases, metas, coq_cases
 
 
@@ -198,12 +223,10 @@ def run(ctx: lib.Ctx) -> None:
     ctx.rule = RULE
     cases, metas, coq_cases = collect(ctx, PROP)
 
-    # (A) implementation vs py_eval
-    bad_a = ctx.coq_mismatches('py', IMPORTS, "py_run'", 'obs_eqb', CASE_TY, 'obs',
-                               [(c, G.obs_coq(o)) for c, o in zip(coq_cases, metas)], prelude=PRELUDE)
-    # (B) implementation vs ref_eval
-    bad_b = ctx.coq_mismatches('ref', IMPORTS, 'ref_run', 'outcome_eqb', CASE_TY, 'outcome',
-                               [(c, f'(erase_obs {G.obs_coq(o)})') for c, o in zip(coq_cases, metas)], prelude=PRELUDE)
+    # typecheck accepts; (A) implementation vs py_eval; (B) implementation vs ref_eval
+    obs_l = [G.obs_coq(o) for o in metas]
+    bad_t, bad_a, bad_b = triple_check(ctx, 'main', coq_cases, [f'(Full {o})' for o in obs_l], [f'(erase_obs {o})' for o in obs_l])
+    tc_fail(cases, bad_t)
     # the FAILWITH error must carry the repr of the operand that was on top
     bad_m = [i for i, o in enumerate(metas) if o['kind'] == 'failwith' and not o.get('repr_ok')]
 
@@ -230,10 +253,9 @@ def run(ctx: lib.Ctx) -> None:
 
     # contracts through run_code
     ccases, cmetas, ccoq = collect_contracts(ctx)
-    cbad_b = ctx.coq_mismatches('cref', IMPORTS, 'ref_run', 'outcome_eqb', CASE_TY, 'outcome',
-                                [(c, G.contract_obs_coq(o)) for c, o in zip(ccoq, cmetas)], prelude=PRELUDE)
-    cbad_a = ctx.coq_mismatches('cpy', IMPORTS, "fun c => erase_obs (py_run' c)", 'outcome_eqb', CASE_TY, 'outcome',
-                                [(c, G.contract_obs_coq(o)) for c, o in zip(ccoq, cmetas)], prelude=PRELUDE)
+    cobs = [G.contract_obs_coq(o) for o in cmetas]
+    cbad_t, cbad_a, cbad_b = triple_check(ctx, 'contract', ccoq, [f'(Erased {o})' for o in cobs], cobs)
+    tc_fail(ccases, cbad_t)
     ctx.extra['contract_disagreements_reference'] = len(cbad_b)
     ctx.extra['contract_disagreements_model'] = len(cbad_a)
     for i in cbad_b:
